@@ -169,6 +169,16 @@ func (w *c18aWorld) Run(c *kernel.RunCtx) {
 	}
 	fqs := bt.NewFeeQuotes("m0")
 	st := models.NewFQState(simEpoch.Unix(), nq)
+	// one run in eight: the quotes are zero values (&bt.FeeQuote{}, what a JSON target is before anything was stored):
+	// readers, expiry operations and restores only -- AddQuote on such a quote writes to a nil map
+	blank := c.Bool(1, 8)
+	if blank {
+		for i := range quotes {
+			quotes[i] = &bt.FeeQuote{}
+			st.Blank(i)
+		}
+		c.Count("probe.zero_value_quotes", 1)
+	}
 	st.AddFresh("m0")
 	miners := []string{"m0", "m1", "m2"}
 	if c.Bool(2, 3) {
@@ -190,6 +200,10 @@ func (w *c18aWorld) Run(c *kernel.RunCtx) {
 		}
 	}
 	wts[c.Choose(len(wts))] += 3
+	if blank {
+		wts[1], wts[11] = 0, 0 // QAdd, SUpdate
+		wts[0], wts[5], wts[6] = wts[0]+2, wts[5]+2, wts[6]+1
+	}
 	feeSeq := 1000
 	var lastFee *bt.Fee
 	lastFeeID, sharedFees := 0, 0
@@ -411,7 +425,11 @@ func (w *c18aWorld) Run(c *kernel.RunCtx) {
 	for _, op := range history {
 		ivs = append(ivs, models.Interval{Call: op.Call, Ret: op.Return, In: op.Input.(models.FQOp), Out: op.Output.(models.FQOut)})
 	}
-	if msg := models.ExpiredExplained(ivs, simEpoch.Unix(), simEpoch.Unix()); msg != "" {
+	exp0 := simEpoch.Unix()
+	if blank {
+		exp0 = models.ZeroTimeUnix
+	}
+	if msg := models.ExpiredExplained(ivs, exp0, simEpoch.Unix()); msg != "" {
 		c.Fail("expired-unexplained", "", "%s", msg)
 		return
 	}
@@ -419,7 +437,7 @@ func (w *c18aWorld) Run(c *kernel.RunCtx) {
 	for m := range st.Miners {
 		atStart[m] = true
 	}
-	if msg := models.SFeeExplained(ivs, atStart); msg != "" {
+	if msg := models.SFeeExplained(ivs, atStart, blank); msg != "" {
 		c.Fail("read-of-unstored-value", "FeeQuotes.Fee", "%s", msg)
 		return
 	}
